@@ -45,6 +45,7 @@ type env struct {
 	sent    func() []ref.Msg
 	observe func(ctx context.Context, path string, cb func(tok []byte, seq uint32, hasSeq bool, body string)) (obsHandle, error)
 	closef  func()
+	get     func(ctx context.Context, path string) error
 	mid     atomic.Uint32
 	tokens  sync.Map // path -> caller-chosen token
 
@@ -114,6 +115,13 @@ func newEnv(kind string, blockwise bool) *env {
 			}
 			return o, nil
 		}
+		e.get = func(ctx context.Context, path string) error {
+			m, err := cc.Get(ctx, path)
+			if err == nil {
+				cc.ReleaseMessage(m)
+			}
+			return err
+		}
 		e.closef = func() { _ = cc.Close() }
 	case "tcp":
 		sc := sim.NewScriptConn()
@@ -146,6 +154,13 @@ func newEnv(kind string, blockwise bool) *env {
 				return nil, err
 			}
 			return o, nil
+		}
+		e.get = func(ctx context.Context, path string) error {
+			m, err := cc.Get(ctx, path)
+			if err == nil {
+				cc.ReleaseMessage(m)
+			}
+			return err
 		}
 		e.closef = func() { _ = cc.Close() }
 	}
@@ -476,6 +491,92 @@ func runStream(rec *vr.Rec, c ocase) {
 
 var firstCallbackMissed atomic.Bool
 
+// busyCallback: the callback of notification N is still busy - it has issued a request of its own on the connection and
+// waits for the answer - when older or equal notifications arrive (a reordered predecessor, a duplicate of N itself).
+// N was delivered, so it is "the last one delivered" from the moment its callback was invoked: none of them may reach
+// the callback. (A newer one may, before or after N's callback returns: two receive goroutines are at work.)
+func busyCallback(rec *vr.Rec, kind string, rep int) {
+	e := newEnv(kind, false)
+	defer e.closef()
+	base := uint32(20 + rep*7)
+	c := map[string]any{"scenario": "stale and duplicate notifications arrive while the callback of the newest one is still running (it waits for a request of its own)", "transport": kind, "first": base, "busy_at": base + 2}
+	var mu sync.Mutex
+	var log []uint32
+	busyStarted := false
+	var afterBusy []uint32
+	nested := make(chan error, 1)
+	regDone := make(chan error, 1)
+	go func() {
+		ctx, cancel := context.WithTimeout(context.Background(), 10*time.Second)
+		defer cancel()
+		_, err := e.observe(ctx, "/busy", func(tok []byte, seq uint32, hasSeq bool, body string) {
+			mu.Lock()
+			log = append(log, seq)
+			if busyStarted {
+				afterBusy = append(afterBusy, seq)
+			}
+			start := seq == base+2 && !busyStarted
+			if start {
+				busyStarted = true
+			}
+			mu.Unlock()
+			if start {
+				gctx, gc := context.WithTimeout(context.Background(), 8*time.Second)
+				nested <- e.get(gctx, "/busy-nested")
+				gc()
+			}
+		})
+		regDone <- err
+	}()
+	req, ok := e.waitRequest(0, 1)
+	if !ok {
+		rec.Inconclusive("busy callback: registration request not seen")
+		return
+	}
+	e.reply(req, 0x45, []ref.Opt{{ID: 6, Val: ref.Uint(base)}}, "first")
+	if err := <-regDone; err != nil {
+		rec.Inconclusive("busy callback: registration failed: " + err.Error())
+		return
+	}
+	sim.WaitFor(5*time.Second, func() bool { mu.Lock(); defer mu.Unlock(); return len(log) >= 1 })
+	e.inject(e.notification(req.Token, base+2, true, "n2", rep%2 == 0))
+	var nreq ref.Msg
+	if !sim.WaitFor(8*time.Second, func() bool {
+		for _, m := range e.sent() {
+			if m.Code == 1 && ref.PathOf(m) == "/busy-nested" {
+				nreq = m
+				return true
+			}
+		}
+		return false
+	}) {
+		rec.Inconclusive("busy callback: nested request not seen")
+		return
+	}
+	// while the callback of base+2 waits: its reordered predecessor, a duplicate of itself, an older one, then a newer one
+	e.inject(e.notification(req.Token, base+1, true, "n1-late", false))
+	e.inject(e.notification(req.Token, base+2, true, "n2-duplicate", rep%3 == 0))
+	e.inject(e.notification(req.Token, base, true, "n0-again", false))
+	e.inject(e.notification(req.Token, base+3, true, "n3", false))
+	e.sync()
+	e.reply(nreq, 0x45, nil, "nested-ok")
+	select {
+	case <-nested:
+	case <-time.After(9 * time.Second):
+	}
+	e.sync()
+	mu.Lock()
+	defer mu.Unlock()
+	rec.Count("busy_callback_cases_"+kind, 1)
+	for _, sq := range afterBusy {
+		if sq <= base+2 {
+			rec.Violation("C08/"+kind+"/stale-notification-delivered-while-callback-busy", fmt.Sprintf("notification %d had been handed to the callback (which was still running, waiting for a request of its own) when notification %d arrived: it reached the callback too (callback saw %v)", base+2, sq, log), c)
+			return
+		}
+	}
+	rec.Count("notifications_refused_while_callback_busy", 3)
+}
+
 func seqs(l []cbEvent) string {
 	var sb strings.Builder
 	for _, e := range l {
@@ -754,5 +855,9 @@ func TestRun(t *testing.T) {
 	}
 	rec.Assume("runs are far shorter than 128 s (checked: a run above 100 s is inconclusive), so on live connections only the serial-number clauses decide; the 128 s clause is decided on the exported predicate")
 	blockwiseRestart(rec, vr.Scale(6, 200))
+	for i := 0; i < vr.Scale(12, 240); i++ {
+		busyCallback(rec, []string{"udp", "tcp"}[i%2], i)
+		rec.Eval(fmt.Sprintf("busy-callback|%d", i))
+	}
 	rec.Assume("a notification without an Observe option is always delivered (the library's documented behaviour for non-observe responses) and does not move the last sequence number")
 }
